@@ -4,6 +4,7 @@
 //@ fn rank_sel::rank_small::Block32Counters<1,10>::{all_rel,rel,set_rel}
 //@ fn rank_sel::rank_small::Block32Counters<1,11>::{all_rel,rel,set_rel}
 //@ fn rank_sel::rank_small::Block32Counters<3,13>::{all_rel,rel,set_rel}
+//@ harness consts_match props=C01 timeout=300
 //@ harness counters_2_9 props=C01,C12 timeout=300
 //@ harness counters_1_9 props=C01,C12 timeout=300
 //@ harness counters_1_10 props=C01,C12 timeout=300
@@ -36,8 +37,25 @@ mod verif_kani_counters {
                 assert!(b.absolute == abs0);
                 if k != w { assert!(b.rel(k) == old_k); }
                 kani::cover!(c > 0 && k != w, "vacuity probe: assumptions are satisfiable");
+                // a default block has every field zero
+                let d = Block32Counters::<$n, $w>::default();
+                assert!(d.absolute == 0 && d.rel(k) == 0);
             }
         };
+    }
+    /// the template parameters of contracts/rank_small.vc are the crate's constants
+    #[kani::proof]
+    fn consts_match() {
+        assert!(RankSmall::<2, 9, BitVec, Box<[usize]>, Box<[Block32Counters<2, 9>]>>::WORDS_PER_BLOCK == 8);
+        assert!(RankSmall::<2, 9, BitVec, Box<[usize]>, Box<[Block32Counters<2, 9>]>>::WORDS_PER_SUBBLOCK == 1);
+        assert!(RankSmall::<1, 9, BitVec, Box<[usize]>, Box<[Block32Counters<1, 9>]>>::WORDS_PER_BLOCK == 8);
+        assert!(RankSmall::<1, 9, BitVec, Box<[usize]>, Box<[Block32Counters<1, 9>]>>::WORDS_PER_SUBBLOCK == 2);
+        assert!(RankSmall::<1, 10, BitVec, Box<[usize]>, Box<[Block32Counters<1, 10>]>>::WORDS_PER_BLOCK == 16);
+        assert!(RankSmall::<1, 10, BitVec, Box<[usize]>, Box<[Block32Counters<1, 10>]>>::WORDS_PER_SUBBLOCK == 4);
+        assert!(RankSmall::<1, 11, BitVec, Box<[usize]>, Box<[Block32Counters<1, 11>]>>::WORDS_PER_BLOCK == 32);
+        assert!(RankSmall::<1, 11, BitVec, Box<[usize]>, Box<[Block32Counters<1, 11>]>>::WORDS_PER_SUBBLOCK == 8);
+        assert!(RankSmall::<3, 13, BitVec, Box<[usize]>, Box<[Block32Counters<3, 13>]>>::WORDS_PER_BLOCK == 128);
+        assert!(RankSmall::<3, 13, BitVec, Box<[usize]>, Box<[Block32Counters<3, 13>]>>::WORDS_PER_SUBBLOCK == 16);
     }
     counters_harness!(counters_2_9, 2, 9, 8, 64);
     counters_harness!(counters_1_9, 1, 9, 4, 128);
